@@ -192,6 +192,37 @@ fn int21_0a(thorough: bool) -> Vec<Case> {
     v
 }
 
+/// a line of 1-, 2-, 3- and 4-byte characters cut by the capacity at every byte position
+fn int21_0a_utf8() -> Vec<Case> {
+    let mut v = Vec::new();
+    let line = "a\u{e9}\u{20ac}\u{1F600}z\u{fc}";
+    for (ds, dx) in [(0x0000u16, 0x0100u16), (0xFFFF, 0x000D)] {
+        for cap in 0..=(line.len() as u32 + 1) {
+            let mut code = vec![label("start")];
+            set_seg(&mut code, "es", ds);
+            code.push(mov(r16("di"), imm(dx.wrapping_sub(3) as i32)));
+            code.push(mov(r16("cx"), imm((cap + 10) as i32)));
+            code.push(mov(r8("al"), imm(0xEE)));
+            code.push(z(ZeroOp::Cld));
+            code.push(strop(Some(Rep::Rep), StrOp::Stos, W::B));
+            set_seg(&mut code, "ds", ds);
+            code.push(mov(r16("bx"), imm(dx as i32)));
+            code.push(mov(ind(W::B, "bx"), imm(cap as i32)));
+            others(&mut code, &["dx"]);
+            code.push(mov(r16("dx"), imm(dx as i32)));
+            code.push(mov(r16("ax"), imm(0x0A00)));
+            code.push(int(0x21));
+            let mut window = BTreeSet::new();
+            for k in 0..cap + 14 {
+                window.insert(phys(ds, dx.wrapping_sub(5).wrapping_add(k as u16)));
+            }
+            epilogue(&mut code, &window);
+            v.push(Case { site: "int 21h ah=0a".into(), prog: Program { data: base_data(), code }, stdin_lines: vec![line.to_string()], stdin_raw: format!("{}\n", line), note: format!("multi-byte characters, capacity {} (DS=0x{:04X} DX=0x{:04X})", cap, ds, dx) });
+        }
+    }
+    v
+}
+
 fn int10_0a(thorough: bool) -> Vec<Case> {
     let mut v = Vec::new();
     let als: Vec<u32> = if thorough { vec![0x41, 0x00, 0x0A, 0x20, 0x7F, 0x80, 0xE9, 0xFF, 0x09, 0x0D] } else { vec![0x41, 0x00, 0x0A, 0x80, 0xFF] };
@@ -347,6 +378,7 @@ pub fn run(tier: &Tier) -> i32 {
     add("int21_02", int21_02(tier.thorough), &mut cases, &mut groups);
     add("int21_01", int21_01(), &mut cases, &mut groups);
     add("int21_0a", int21_0a(tier.thorough), &mut cases, &mut groups);
+    add("int21_0a_utf8", int21_0a_utf8(), &mut cases, &mut groups);
     add("int10_0a", int10_0a(tier.thorough), &mut cases, &mut groups);
     add("int10_13", int10_13(tier.thorough), &mut cases, &mut groups);
     add("unsupported_ah", unsupported(), &mut cases, &mut groups);
@@ -394,7 +426,7 @@ pub fn run(tier: &Tier) -> i32 {
     }
     let mut cov = Coverage::default();
     cov.exhaustive = true;
-    cov.rule = "every run is the real binary with a scripted stdin (pipe closed after the script). INT 21h/02: DL over 12 (thorough: all 256) values x 2 prior AL. INT 21h/01: 9 stdin shapes (closed, empty line, short, exactly capacity, longer, no trailing newline, two lines, 300 characters, UTF-8) x 2 prior AL, followed by a second read and an echo. INT 21h/0Ah: 5 buffer placements (low, offset wrap at 16 bits, crossing 2^20, ending exactly at 0xFFFFF, header split by the wrap) x capacities {0,1,5,255} (thorough: 7 values) x the 9 stdin shapes, the buffer surrounded by 0xEE markers. INT 10h/0Ah: AL x CX lattice (thorough up to CX=65535). INT 10h/13h: 5 (ES,BP) placements incl. strings crossing 2^20 and BP+i wrapping at 16 bits x DL x CX. Every AH value 0..255 other than the supported ones for both interrupts, at the first / a middle / the last line. All 25 ordered pairs of services x 3 stdin scripts. After each service the program prints all registers, the flags, the marker window around the buffer, the first 48 and the last 48 bytes of memory; service output is matched byte for byte and every printed field against the reference state".into();
+    cov.rule = "every run is the real binary with a scripted stdin (pipe closed after the script). INT 21h/02: DL over 12 (thorough: all 256) values x 2 prior AL. INT 21h/01: 9 stdin shapes (closed, empty line, short, exactly capacity, longer, no trailing newline, two lines, 300 characters, UTF-8) x 2 prior AL, followed by a second read and an echo. INT 21h/0Ah: 5 buffer placements (low, offset wrap at 16 bits, crossing 2^20, ending exactly at 0xFFFFF, header split by the wrap) x capacities {0,1,5,255} (thorough: 7 values) x the 9 stdin shapes, the buffer surrounded by 0xEE markers; plus a line of 1-, 2-, 3- and 4-byte characters cut by every capacity 0..length+1 (the cut falls inside a character). INT 10h/0Ah: AL x CX lattice (thorough up to CX=65535). INT 10h/13h: 5 (ES,BP) placements incl. strings crossing 2^20 and BP+i wrapping at 16 bits x DL x CX. Every AH value 0..255 other than the supported ones for both interrupts, at the first / a middle / the last line. All 25 ordered pairs of services x 3 stdin scripts. After each service the program prints all registers, the flags, the marker window around the buffer, the first 48 and the last 48 bytes of memory; service output is matched byte for byte and every printed field against the reference state".into();
     cov.bounds = json!({"groups": groups.iter().map(|(n, k)| json!({"group": n, "runs": k})).collect::<Vec<_>>(), "service_output_bytes_matched": out_bytes.load(Ordering::Relaxed), "unsupported_reports_checked": unsup.load(Ordering::Relaxed), "cases_conforming_only_in_dos_encoding": dos_mode_used.load(Ordering::Relaxed), "tier": tier.name()});
     cov.assumptions = common_assumptions();
     cov.assumptions.push("characters >= 0x80 may be written as the raw byte or as the UTF-8 encoding of the same code point".into());
